@@ -36,9 +36,9 @@ def mk_tag(kind, c):
     if kind == 3:
         return T + 'str', None
     if kind == 4:
-        return 'tag:example.com,2000:' + c + 'x', None            # verbatim URI or !<...>
+        return 't:' + c + 'x', None            # verbatim URI: !<...>
     if kind == 5:
-        return 'tag:example.com,2000:app/' + c, {'!e!': 'tag:example.com,2000:app/'}
+        return 't:a/' + c, {'!e!': 't:a/'}
     return '!' + c + 'x', None
 
 
@@ -137,6 +137,14 @@ def _bad_tag(tag_i, c):
     return False
 
 
+NONASCII = ['\x80', '\xe9', '\u07ff', '\u0800', '\u20ac', '\ud7ff', '\ue000', '\ufffd', '\U00010000', '\U0001f600', '\U0010ffff', '\x85', '\u2028', '\ufeff']
+
+
+def one_scalar_nonascii(ci: int, style_i: int, impl_i: int, anch: bool, tag_i: int, sk: int, ver: bool) -> str:
+    """tags with a non-ASCII character: boundary code points of every UTF-8 length class"""
+    return one_scalar('v', pick(ci, NONASCII), style_i, impl_i, anch, tag_i, sk, False, ver, False, True, 80)
+
+
 def one_scalar_alpha(i0: int, i1: int, n: int, style_i: int, impl_i: int, sk: int, flow: bool, canonical: bool, allow_unicode: bool, width: int) -> str:
     x = ''
     for k, i in enumerate((i0, i1)):
@@ -145,10 +153,18 @@ def one_scalar_alpha(i0: int, i1: int, n: int, style_i: int, impl_i: int, sk: in
     return one_scalar(x, 'c', style_i, impl_i, False, 0, sk, flow, False, canonical, allow_unicode, width)
 
 
-def directives(p: str, h: str, ver_minor: int, explicit: bool) -> str:
-    """%TAG with a free prefix string and handle character, %YAML 1.x"""
+PREFIX_CHARS = ['', 'a', '!', ' ', '%', ',', '[', '#', '\n', '\x01'] + ['\xe9', '\u20ac', '\U0001f600', '\x85', '\u2028', '\ufeff']
+HANDLE_CHARS = ['e', '', '1', '-', '_', '!', ' ', '\xe9']
+
+
+def directives(pi: int, hi: int, ver_minor: int, explicit: bool) -> str:
+    """%TAG with a prefix character and a handle character chosen by solver variables (a dict of
+    tag handles cannot hold a symbolic key, so the characters are picked from class representatives),
+    %YAML 1.x"""
+    p, h = pick(pi, PREFIX_CHARS), pick(hi, HANDLE_CHARS)
     handle = '!' + h + '!'
-    prefix = 'tag:e.org,2000:' + p
+    prefix = 't:' + p
+    ver_minor = pick(ver_minor, [0, 1, 2])
     events = [StreamStartEvent(), DocumentStartEvent(explicit=explicit, version=(1, ver_minor), tags={handle: prefix}),
               ScalarEvent(None, prefix + 'foo', (False, False), 'v'), DocumentEndEvent(explicit=explicit), StreamEndEvent()]
     try:
@@ -157,14 +173,14 @@ def directives(p: str, h: str, ver_minor: int, explicit: bool) -> str:
         reach()
         return 'ok'      # e.g. a handle character that cannot be written: refused with the emitter's own error
     except yaml.YAMLError as e:
-        return fail(P, 'REPARSE the emitted text is rejected (%s)' % type(e).__name__, p=p, h=h)
+        return fail(P, 'REPARSE the emitted text is rejected (%s)' % type(e).__name__, pi=pi, hi=hi)
     except Exception as e:
         not_a_finding(e)
-        return fail(P, exc_sig(e), p=p, h=h)
+        return fail(P, exc_sig(e), pi=pi, hi=hi)
     reach()
     r = same_events(events, got)
     if r:
-        return fail(P, r, p=p, h=h)
+        return fail(P, r, pi=pi, hi=hi)
     return 'ok'
 
 
@@ -243,46 +259,58 @@ def selftests():
     return [pymodels.selftest_codecs()]
 
 
+def _nosur(c):
+    # lone surrogates are not Unicode scalar values: a tag / prefix holding one is outside the claim
+    return not ('\ud800' <= c <= '\udfff')
+
+
 def jobs(tier):
     q = tier == 'quick'
     js = []
     XL = 1 if q else 2
     # scalar value: free character(s); tag None; all styles, implicit pairs, skeletons
     for st in range(6):
-        for sk in ((0, 2, 3) if q else range(6)):
+        for sk in (((0, 2) if st in (0, 4) else (2,)) if q else range(6)):
             js.append(Job('value/style%d/sk%d' % (st, sk), one_scalar,
                           [lambda x, c, style_i, impl_i, anch, tag_i, sk, flow, ver, canonical, allow_unicode, width, _st=st, _sk=sk:
-                           style_i == _st and sk == _sk and len(x) <= XL and c == 'c' and 0 <= impl_i <= (1 if q else 3) and not anch and tag_i == 0 and not flow
+                           style_i == _st and sk == _sk and len(x) <= XL and c == 'c' and (impl_i == 0 if q else 0 <= impl_i <= 3) and not anch and tag_i == 0 and not flow
                            and not ver and not canonical and width == 80],
-                          budget=200 if q else 1200, exhaust=q,
-                          bounds='scalar value len<=%d over all code points, requested style %r, skeleton %d, implicit pairs, allow_unicode both' % (XL, STYLE_REQ[st], sk)))
+                          budget=150 if q else 1200, exhaust=q,
+                          bounds='scalar value len<=%d over all code points, requested style %r, skeleton %d, allow_unicode both' % (XL, STYLE_REQ[st], sk)))
     # tags: 7 kinds with a free character, anchors, implicit pairs
     for tg in range(7):
         js.append(Job('tag/kind%d' % tg, one_scalar,
                       [lambda x, c, style_i, impl_i, anch, tag_i, sk, flow, ver, canonical, allow_unicode, width, _t=tg:
-                       tag_i == _t and x == 'v' and len(c) == 1 and (style_i == 0 or style_i == 3) and 0 <= impl_i <= 3 and (sk == 0 or sk == 2) and not flow
+                       tag_i == _t and x == 'v' and len(c) == 1 and c < '\x80' and (style_i == 0 if (q and _t >= 4) else (style_i == 0 or style_i == 3)) and 0 <= impl_i <= 3 and
+                       (sk == 2 if q else (sk == 0 or sk == 2)) and not flow and (not ver if q else True) and (not anch if q else True)
                        and not canonical and width == 80 and allow_unicode],
-                      budget=200 if q else 1200,
-                      bounds='tag kind %d with one free character over all code points x anchor x 4 implicit pairs x %%YAML x 2 styles x 2 skeletons' % tg))
+                      budget=150 if q else 1200,
+                      bounds='tag kind %d with one free ASCII character x anchor x 4 implicit pairs' % tg))
+        if tg >= 4:
+            js.append(Job('tag-nonascii/kind%d' % tg, one_scalar_nonascii,
+                          [lambda ci, style_i, impl_i, anch, tag_i, sk, ver, _t=tg: tag_i == _t and 0 <= ci < len(NONASCII) and (style_i == 0 or style_i == 3) and
+                           0 <= impl_i <= 3 and (sk == 0 or sk == 2)],
+                          budget=150 if q else 1200,
+                          bounds='tag kind %d with one of %d non-ASCII boundary code points (every UTF-8 length class, NEL, LS, BOM) x anchor x implicit pairs x %%YAML x 2 styles x 2 skeletons' % (tg, len(NONASCII))))
     # options on the class alphabet
     NA = len(ALPHA)
-    for a in range(0, NA, 1 if not q else 1):
+    for a in range(NA):
         js.append(Job('alpha/first=%r' % ALPHA[a], one_scalar_alpha,
                       [lambda i0, i1, n, style_i, impl_i, sk, flow, canonical, allow_unicode, width, _a=a:
-                       i0 == _a and 0 <= i1 < NA and n == 2 and 0 <= style_i <= 5 and impl_i == 0 and (sk == 1 or sk == 3 or sk == 5) and
-                       (width == 80 or width == 4) and (not canonical if q else True) and (flow if sk == 5 else not flow)],
-                      budget=200 if q else 1500, exhaust=q,
-                      bounds='2-character strings over the class alphabet starting with %r x 6 requested styles x 3 skeletons x width {4,80} x allow_unicode' % ALPHA[a]))
-    PL = 1 if q else 2
-    js.append(Job('directives', directives, [lambda p, h, ver_minor, explicit: len(p) <= PL and len(h) <= 1 and 0 <= ver_minor <= 2],
-                  budget=200 if q else 1200, bounds='%%TAG !<h>! prefix+<p> with free h (len<=1) and p (len<=%d), %%YAML 1.0-1.2' % PL))
+                       i0 == _a and 0 <= i1 < NA and n == 2 and 0 <= style_i <= 5 and impl_i == 0 and
+                       (sk == 3 if q else (sk == 1 or sk == 3 or sk == 5)) and
+                       ((width == 80) if q else (width == 80 or width == 4)) and (not canonical if q else True) and (flow if sk == 5 else not flow)],
+                      budget=150 if q else 1500, exhaust=q,
+                      bounds='2-character strings over the class alphabet starting with %r x 6 requested styles x allow_unicode' % ALPHA[a]))
+    js.append(Job('directives', directives, [lambda pi, hi, ver_minor, explicit: 0 <= pi < len(PREFIX_CHARS) and 0 <= hi < len(HANDLE_CHARS) and 0 <= ver_minor <= 2],
+                  budget=200 if q else 600, bounds='%%TAG !<h>! t:<p> over %d prefix and %d handle class representatives x %%YAML 1.0-1.2 x explicit' % (len(PREFIX_CHARS), len(HANDLE_CHARS))))
     IN = 4 if q else 5
     for k in range(10):
         js.append(Job('illformed/first=%s' % KINDS[k], illformed,
                       [lambda n, k0, k1, k2, k3, k4, _k=k: 1 <= n <= IN and k0 == _k and 0 <= k1 <= 9 and 0 <= k2 <= 9 and 0 <= k3 <= 9 and 0 <= k4 <= (9 if IN == 5 else 0)],
                       budget=200 if q else 1500, bounds='event sequences of len<=%d over 10 kinds, first %s' % (IN, KINDS[k])))
-    RL = 3 if q else 4
+    RL = 2 if q else 3
     for w, name in enumerate(['prepare_tag', 'prepare_tag_prefix', 'prepare_tag_handle', 'prepare_anchor']):
-        js.append(Job('prepare/' + name, prepare, [lambda which, x, _w=w: which == _w and len(x) <= RL], budget=200 if q else 1500,
-                      bounds='%s on every str of len<=%d' % (name, RL)))
+        js.append(Job('prepare/' + name, prepare, [lambda which, x, _w=w: which == _w and len(x) <= RL and all(_nosur(ch) for ch in x)], budget=150 if q else 1500,
+                      bounds='%s on every str of len<=%d (Unicode scalar values)' % (name, RL)))
     return js
